@@ -167,7 +167,7 @@ func (g *G) NativeSPDX(maxElems int, duplicate, dangling float64) *spdx.Document
 		if len(idsUsed) > 0 && g.Chance(duplicate) {
 			return common.ElementID(Pick(g, idsUsed))
 		}
-		id := fmt.Sprintf("%s%d", Pick(g, []string{"Package-", "File-", "e"}), i)
+		id := fmt.Sprintf("%s%d", Pick(g, []string{"Package-", "File-", "e", "spdxref-", "Ref-"}), i)
 		idsUsed = append(idsUsed, id)
 		return common.ElementID(id)
 	}
